@@ -26,7 +26,7 @@ import (
 
 var otherGUID = util.EFIGUID{Data1: 0x4a67b082, Data2: 0x0a4c, Data3: 0x41cf, Data4: [8]byte{0xb6, 0xc7, 0x44, 0x0b, 0x29, 0xbb, 0x8c, 0x4f}}
 
-// the variables of the store: the four secure-boot ones and four ordinary ones
+// the variables of the store: the four secure-boot ones and five ordinary ones
 // (one of them shares its name with a secure-boot variable but lives under another GUID)
 var vars = []efivar.Efivar{
 	efivar.PK, efivar.KEK, efivar.Db, efivar.Dbx,
@@ -35,8 +35,10 @@ var vars = []efivar.Efivar{
 	{Name: "db", GUID: &otherGUID, Attributes: attributes.EFI_VARIABLE_NON_VOLATILE | attributes.EFI_VARIABLE_BOOTSERVICE_ACCESS},
 	// variable names are case sensitive: another variable under the same GUID whose name differs only in letter case
 	{Name: "verifordinary", GUID: &otherGUID, Attributes: attributes.EFI_VARIABLE_BOOTSERVICE_ACCESS | attributes.EFI_VARIABLE_RUNTIME_ACCESS},
+	// every attribute bit the specification defines, the highest one (0x80) included
+	{Name: "VerifAllAttributes", GUID: &otherGUID, Attributes: attributes.Attributes(0xff &^ uint32(attributes.EFI_VARIABLE_APPEND_WRITE))},
 }
-var varNames = []string{"PK", "KEK", "db", "dbx", "VerifOrdinary", "LoaderEntrySelected", "db@otherGUID", "verifordinary"}
+var varNames = []string{"PK", "KEK", "db", "dbx", "VerifOrdinary", "LoaderEntrySelected", "db@otherGUID", "verifordinary", "VerifAllAttributes"}
 
 func secureBoot(i int) bool { return i < 4 }
 
@@ -108,7 +110,7 @@ func genCase(t *rapid.T) Case {
 	n := rapid.IntRange(1, max).Draw(t, "nops")
 	for i := 0; i < n; i++ {
 		// few variables so that the same one is rewritten with longer and shorter values
-		v := rapid.SampledFrom([]int{0, 1, 2, 2, 2, 3, 4, 4, 5, 6, 7, 7}).Draw(t, "var")
+		v := rapid.SampledFrom([]int{0, 1, 2, 2, 2, 3, 4, 4, 5, 6, 7, 7, 8}).Draw(t, "var")
 		op := Op{Var: v, Own: rapid.IntRange(0, 2).Draw(t, "own_efivar_value") == 0}
 		switch k := rapid.IntRange(0, 9).Draw(t, "kind"); {
 		case k < 5:
